@@ -18,7 +18,8 @@ import (
 
 // Memory budget of the loop: linear in the input. Calibrated on valid and rejected input (TestCalibration prints the
 // observed maxima): the parser allocates < 50 bytes per input byte on the densest valid constructs (sequence sets,
-// nested search keys), < 600 bytes per rejected line (error values), ~8 KiB fixed (parser, 4 KiB bufio buffer).
+// nested search keys), < 600 bytes per iteration on short lines (error values of rejected lines, the command value
+// of accepted ones), ~8 KiB fixed (parser, 4 KiB bufio buffer).
 const (
 	memPerByte = 64
 	memPerIter = 1024
@@ -304,7 +305,7 @@ func conclude(t interface {
 
 // TestLoopMutated: valid command streams with structure-aware damage, cut at a drawn point.
 func TestLoopMutated(t *testing.T) {
-	ev.Checks(6000, 60000)
+	ev.Checks(12000, 60000)
 
 	rapid.Check(t, func(t *rapid.T) {
 		x := newGen(t, false)
@@ -325,7 +326,7 @@ func TestLoopMutated(t *testing.T) {
 
 // TestLoopRaw: raw bytes.
 func TestLoopRaw(t *testing.T) {
-	ev.Checks(3000, 30000)
+	ev.Checks(5000, 30000)
 
 	rapid.Check(t, func(t *rapid.T) {
 		x := newGen(t, false)
